@@ -176,6 +176,14 @@ def oracle(case):
 			want = [_unq(x) for x in tp.split(u'/')]
 			if list(got.path_segments) != want:
 				return {'what': 'the path segments of the result are %r, RFC 3986 5.2 gives %r (an encoded slash is data, not a separator)' % (list(got.path_segments), want), 'base': base, 'ref': ref, 'finding': 'F59' if rootless_dots(ref) else None}
+	# the written form, against the RFC result itself when nothing in it needs escaping or case folding (no library call on this side)
+	ts, ta, tp, tq, tf = rfc3986.resolve(base, ref, remove_dot_segments=lambda p: rfc3986.remove_dot_segments(rfc3986.collapse(p)))
+	plain = (ts or u'') + u'://' + (ta or u'') + tp + (u'?' + tq if tq is not None else u'') + (u'#' + tf if tf is not None else u'')
+	import re as _re2
+	if ts in (u'http', u'https') and ta and tp and _re2.match(u"^https?://[a-z0-9]+(\\.[a-z0-9]+)*(:[0-9]+)?/[A-Za-z0-9._~:@;=/-]*(\\?[A-Za-z0-9._~:@;=/&?-]+)?(#[A-Za-z0-9._~:@;=/?-]+)?$", plain) \
+			and not _re2.search(u':(80|443)(/|$)', plain[6:]) and not rootless_dots(ref) and u'//' not in tp:
+		if text(got) != plain:
+			return {'what': 'the result is written %r, RFC 3986 5.2 gives %r (nothing in it needs escaping)' % (text(got), plain), 'base': base, 'ref': ref, 'finding': None}
 	if got.tuple != exp.tuple or text(got) != text(exp):
 		return {'what': 'join differs from RFC 3986 5.2.2 + normalisation', 'base': base, 'ref': ref, 'got': [text(got), list(got.tuple)], 'expected': [text(exp), list(exp.tuple)], 'finding': 'F59' if rootless_dots(ref) else None}
 	return None
